@@ -108,6 +108,15 @@ def gen_large(rng):
              'large': 1} for _j in range(2)]
 
 
+def copyable(desc):
+    """may the consumer iterate a copy() instead?  Not with a user-written source /
+    stage (no copy()), and not with a tiling above a per-epoch reshuffle (recorded
+    finding of C13: the copy of such a pipeline iterates in another order)"""
+    ops = [s['op'] for s in desc['stages']]
+    return desc['source'].get('kind') != 'user' and 'user' not in ops \
+        and 'userstage' not in ops and 'tile' not in ops and 'cycle' not in ops
+
+
 def gen(rng, tier, index):
     if tier == 'thorough' and index % 3000 == 2999:
         return gen_systematic_two(rng)
@@ -151,9 +160,11 @@ def gen(rng, tier, index):
             if pst['op'] == st['op'] and pargen.is_pool(pst) == pargen.is_pool(st):
                 prelude = pd
                 break
+    via_copy = copyable(desc) and rng.random() < 0.12
     cases = []
     for j in range(3):
         cases.append({
+            **({'via_copy': True} if via_copy else {}),
             'desc': desc, 'sched': pargen.gen_sched(rng),
             'epochs': rng.choice([1, 2]), 'items': bool(items),
             'cost_seed': rng.randrange(1000), 'think_seed': rng.randrange(1000),
